@@ -74,7 +74,7 @@ def _setup():
         'ij,j->i',
     )
     _state.update(dict(jax=jax, jnp=jnp, Config=Config, solvers=solvers, callbacks=callbacks,
-                       fired=fired, op=op, hard=hard))
+                       fired=fired, op=op + op, hard=hard))      # a composite (sum): its reduce() builds a new object
     return _state
 
 
@@ -123,6 +123,7 @@ class _Ctx:
         self.inbox: queue.Queue = queue.Queue()
         self.outbox: queue.Queue = queue.Queue()
         self.pending = None
+        self.prebuilt = None
         self.thread = None
         self.finished = False
 
@@ -154,8 +155,14 @@ class _Ctx:
                 if a == 'New':
                     self.pending = Config(**_kwargs(cmd['n']))
                     self.outbox.put({})
-                elif a == 'Enter':
-                    cfgobj, self.pending = self.pending, None
+                elif a == 'Prebuild':
+                    self.prebuilt = Config(**_kwargs(cmd['n']))      # kept for a later `with`
+                    self.outbox.put({})
+                elif a in ('Enter', 'EnterPre'):
+                    if a == 'Enter':
+                        cfgobj, self.pending = self.pending, None
+                    else:
+                        cfgobj, self.prebuilt = self.prebuilt, None
                     try:
                         with cfgobj:
                             self.outbox.put({})
@@ -192,6 +199,19 @@ class _Ctx:
                         out['solver'] = {500: 0, 7: 1, 11: 2}.get(steps, 99)
                     elif len(fired) > 1:
                         out['fired'] = 98
+                    # the same inverse inside an expression that is reduced NOW (under whatever is active now): the
+                    # reduced expression must still use the configuration captured at creation
+                    from furax._base.core import InverseOperator
+                    red = (2 * inv).reduce()
+                    inner = [o for o in getattr(red, 'operands', [red]) if isinstance(o, InverseOperator)]
+                    out['cap_red'] = _project(inner[0].config) if len(inner) == 1 else {'solver': 99, 'throw': 99, 'cb': 99}
+                    del st['fired'][:]
+                    with contextlib.redirect_stdout(io.StringIO()):
+                        z = red(st['jnp'].array([1.0, 2.0], dtype=st['jnp'].float32))
+                        st['jax'].block_until_ready(z)
+                        st['jax'].effects_barrier()
+                    fr = list(st['fired'])
+                    out['fired_red'] = fr[0][0] if len(fr) == 1 else (0 if not fr else 98)
                     # the effect of the captured solver_throw: a solve that cannot converge raises or returns
                     hinv = self.driver.hard_invs[cmd['n'] - 1]
                     try:
@@ -268,6 +288,8 @@ class _Driver:
         out['fired'] = res.get('fired', -1)
         out['solver'] = res.get('solver', -1)
         out['raised'] = res.get('raised', -1)
+        out['cap_red'] = res.get('cap_red', {'solver': -1, 'throw': -1, 'cb': -1})
+        out['fired_red'] = res.get('fired_red', -1)
         out['vals'] = self.observe()
         return out
 
@@ -292,6 +314,8 @@ def complete(events: list[dict]) -> list[dict]:
             pend[c] = True
         elif a == 'Enter':
             pend[c] = False
+            depth[c] += 1
+        elif a == 'EnterPre':
             depth[c] += 1
         elif a == 'Exit':
             depth[c] -= 1
@@ -339,6 +363,7 @@ def random_history(rng: random.Random, length: int, max_depth: int, max_inv: int
     status[0] = 'run'
     depth = {c: 0 for c in range(NCTX)}
     pend = {c: False for c in range(NCTX)}
+    pre = {c: False for c in range(NCTX)}
     ninv = 0
     evs = []
     while len(evs) < length:
@@ -351,6 +376,10 @@ def random_history(rng: random.Random, length: int, max_depth: int, max_inv: int
         choices = ['Read']
         if depth[c] < max_depth:
             choices += ['New'] * 3
+            if pre[c]:
+                choices += ['EnterPre'] * 2
+        if not pre[c]:
+            choices += ['Prebuild']
         if depth[c] > 0:
             choices += ['Exit'] * 2
         if ninv < max_inv:
@@ -366,6 +395,13 @@ def random_history(rng: random.Random, length: int, max_depth: int, max_inv: int
         if a == 'New':
             evs.append({'a': 'New', 'c': c, 'n': rng.randint(1, 5), 's': ''})
             pend[c] = True
+        elif a == 'Prebuild':
+            evs.append({'a': 'Prebuild', 'c': c, 'n': rng.randint(1, 5), 's': ''})
+            pre[c] = True
+        elif a == 'EnterPre':
+            evs.append({'a': 'EnterPre', 'c': c, 'n': 0, 's': ''})
+            pre[c] = False
+            depth[c] += 1
         elif a == 'Exit':
             evs.append({'a': 'Exit', 'c': c, 'n': 0, 's': rng.choice(['normal', 'exception'])})
             depth[c] -= 1
@@ -499,10 +535,10 @@ def run(tier: str, seed: int) -> int:
     verd = fx.Verdicts(PROP)
     # ---- stage 1a: exhaustive design-level check
     if tier == 'quick':
-        bounds = dict(ctx='{0, 1}', depth=2, inv=1, nkw=3, level=40)
+        bounds = dict(ctx='{0, 1}', depth=2, inv=1, nkw=2, level=40)      # 92 000 states: the whole bounded space
         nsim, genlen, nrand = 400, 10, 300
     else:
-        bounds = dict(ctx='{0, 1, 2}', depth=2, inv=1, nkw=3, level=60)
+        bounds = dict(ctx='{0, 1}', depth=2, inv=1, nkw=3, level=40)      # 16.5 million states (about 6 minutes)
         nsim, genlen, nrand = 4000, 14, 4000
     mc = fx.run_tlc('MC_Config', MC_CFG.format(**bounds), workers=fx.NPROC, tag='mc')
     if mc.violated:
@@ -525,6 +561,14 @@ def run(tier: str, seed: int) -> int:
                 evs += [{'a': 'CreateInv', 'c': 0, 'n': 0, 's': ''}]
         evs += [{'a': 'ApplyInv', 'c': 0, 'n': 1, 's': ''}]
         deep.append({'events': evs})
+    # a Config object built first and entered later, inside other blocks (and an inverse created after it is left)
+    for k_outer, k_pre in ((1, 2), (3, 5), (2, 4), (3, 4)):
+        deep.append({'events': [
+            {'a': 'Prebuild', 'c': 0, 'n': k_pre, 's': ''},
+            {'a': 'New', 'c': 0, 'n': k_outer, 's': ''}, {'a': 'Enter', 'c': 0, 'n': 0, 's': ''},
+            {'a': 'EnterPre', 'c': 0, 'n': 0, 's': ''}, {'a': 'Read', 'c': 0, 'n': 0, 's': ''},
+            {'a': 'Exit', 'c': 0, 'n': 0, 's': 'normal'}, {'a': 'Read', 'c': 0, 'n': 0, 's': ''},
+            {'a': 'CreateInv', 'c': 0, 'n': 0, 's': ''}, {'a': 'ApplyInv', 'c': 0, 'n': 1, 's': ''}]})
     cases = []
     for src, group in (('spec', spec_cases), ('random', rand_cases), ('deep', deep)):
         for c in group:
